@@ -997,6 +997,24 @@ package gldap
 //@   panics false
 //@   modifies all(ber.Packet), cell(*ber.Packet), G_bufdata, G_pktnew
 //@   tags C14
+// Behera password policy response control: the grammar of the encoded control
+// (draft-behera-ldap-password-policy-10 §6.2): SEQUENCE { controlType OCTET STRING,
+// controlValue OCTET STRING { SEQUENCE { warning [0] { timeBeforeExpiration [0] INTEGER |
+// graceAuthNsRemaining [1] INTEGER } | error [1] ENUMERATED } } }; no value when nothing is set.
+//@ pure bpWarn(p *ber.Packet) *ber.Packet = kid(kid(kid(p,1),0),0)
+//@ pure bpShape(p *ber.Packet) bool = nkids(p) == 2 && isOct(kid(p,1)) && nkids(kid(p,1)) == 1 && isSeq(kid(kid(p,1),0)) && nkids(kid(kid(p,1),0)) == 1
+//@ func (*gldap.ControlBeheraPasswordPolicy).Encode
+//@   requires c != nil
+//@   ensures  result != nil && nkids(result) >= 1 && isSeq(result) && isOct(kid(result,0)) && strval(kid(result,0)) == ControlTypeBeheraPasswordPolicy
+//@   ensures  c.grace >= 0 ==> bpShape(result) && bpWarn(result).ClassType == ber.ClassContext && bpWarn(result).TagType == ber.TypeConstructed && bpWarn(result).Tag == 0 && nkids(bpWarn(result)) == 1 &&
+//@              kid(bpWarn(result),0).ClassType == ber.ClassContext && kid(bpWarn(result),0).Tag == 1 && kid(bpWarn(result),0).Value.(int64) == c.grace
+//@   ensures  c.grace < 0 && c.expire >= 0 ==> bpShape(result) && bpWarn(result).ClassType == ber.ClassContext && bpWarn(result).TagType == ber.TypeConstructed && bpWarn(result).Tag == 0 && nkids(bpWarn(result)) == 1 &&
+//@              kid(bpWarn(result),0).ClassType == ber.ClassContext && kid(bpWarn(result),0).Tag == 0 && kid(bpWarn(result),0).Value.(int64) == c.expire
+//@   ensures  c.grace < 0 && c.expire < 0 && c.error >= 0 ==> bpShape(result) && bpWarn(result).ClassType == ber.ClassContext && bpWarn(result).TagType == ber.TypePrimitive && bpWarn(result).Tag == 1 && bpWarn(result).Value.(int8) == c.error
+//@   ensures  c.grace < 0 && c.expire < 0 && c.error < 0 ==> nkids(result) == 1
+//@   panics false
+//@   modifies all(ber.Packet), cell(*ber.Packet), G_bufdata, G_pktnew
+//@   tags C14
 //@ func gldap.encodeControls
 //@   requires forall(j, 0, len(controls), !isNilIface(controls[j]) && iref(controls[j]) != 0)
 //@   ensures  result != nil && fresh(result) && result.ClassType == ber.ClassContext && result.TagType == ber.TypeConstructed && result.Tag == 0 && nkids(result) == len(controls)
